@@ -194,6 +194,20 @@ Definition C03_ok (tr : trace) : bool :=
   (* the flag is polled in the tick that is running or in the next one: at most one more tick begins *)
   (ticks_after_flag false tr <=? 1) && (sleeps_after_flag false tr <=? 2) && c03_mon false tr.
 
+(* a background thread whose callback raised anywhere but in its teardown flags the failure before it ends:
+   without the flag the control thread never learns of the dead thread.  [owed i]: thread i has raised and not
+   flagged yet. *)
+Definition is_teardown_cb (c : cbn) : bool := match c with ATeardown | ETeardown => true | _ => false end.
+Fixpoint flagged_before_exit (owed : nat -> bool) (tr : trace) : bool :=
+  match tr with
+  | [] => true
+  | (TBg i, LCbRaise c) :: r => flagged_before_exit (if is_teardown_cb c then owed else upd owed i true) r
+  | (TBg i, LSet (EExc _)) :: r => flagged_before_exit (upd owed i false) r
+  | (TBg i, LExit _) :: r => negb (owed i) && flagged_before_exit owed r
+  | _ :: r => flagged_before_exit owed r
+  end.
+Definition C03_flagged (tr : trace) : bool := flagged_before_exit (fun _ => false) tr.
+
 (* ---------- C08: launch() ends only because of a shutdown command, the uptime limit, an interrupt or an exception
    raised by user code (a callback of a background thread, seen through its flag; the save condition; a component's
    save): the shutdown event is set, the background threads are joined and launch() ends only after such a cause *)
@@ -259,6 +273,63 @@ Definition status_of (shutdown resume : bool) (flags : list bool) : status :=
   else if negb resume then (if forallb (fun b => b) flags then StPaused else StPausing)
   else if existsb (fun b => b) flags then StResuming else StActive.
 
+Definition status_eqb (a b : status) : bool :=
+  match a, b with
+  | StActive, StActive | StPausing, StPausing | StPaused, StPaused | StResuming, StResuming | StShuttingDown, StShuttingDown => true
+  | _, _ => false
+  end.
+
+(* ---------- a status request as reads interleaved with the other threads' writes ----------
+   The flags the status provider consults: the controller's shutdown and resume events and every thread's
+   paused event.  A history lists, in the order they happened, the writes of all threads and the reads and
+   answers of status requests.  [truthful] demands of every request that its answer was TRUE at some instant
+   between its beginning and its end: it follows the flags through the writes and collects every status the
+   system had during the request. *)
+Inductive flag := FShutdown | FResume | FPaused (i : nat).
+Record flags := { f_sh : bool; f_rs : bool; f_p : list bool }.
+Inductive sev :=
+| SWrite (f : flag) (v : bool)
+| SBegin
+| SRead (f : flag) (v : bool)
+| SEnd (answer : status).
+
+Fixpoint set_nth (i : nat) (v : bool) (l : list bool) : list bool :=
+  match l, i with
+  | [], _ => []
+  | _ :: r, 0 => v :: r
+  | x :: r, S j => x :: set_nth j v r
+  end.
+Definition set_flag (s : flags) (f : flag) (v : bool) : flags :=
+  match f with
+  | FShutdown => {| f_sh := v; f_rs := f_rs s; f_p := f_p s |}
+  | FResume => {| f_sh := f_sh s; f_rs := v; f_p := f_p s |}
+  | FPaused i => {| f_sh := f_sh s; f_rs := f_rs s; f_p := set_nth i v (f_p s) |}
+  end.
+Definition get_flag (s : flags) (f : flag) : bool :=
+  match f with FShutdown => f_sh s | FResume => f_rs s | FPaused i => nth i (f_p s) false end.
+Definition status_at (s : flags) : status := status_of (f_sh s) (f_rs s) (f_p s).
+Definition flags0 (n : nat) : flags := {| f_sh := false; f_rs := true; f_p := repeat false n |}.
+
+(* [cur]: None outside a request; inside, every status the system has had since the request began *)
+Fixpoint truthful_from (s : flags) (cur : option (list status)) (h : list sev) : bool :=
+  match h with
+  | [] => true
+  | SWrite f v :: r => let s' := set_flag s f v in truthful_from s' (option_map (cons (status_at s')) cur) r
+  | SBegin :: r => truthful_from s (Some [status_at s]) r
+  | SRead _ _ :: r => truthful_from s cur r
+  | SEnd a :: r => match cur with Some l => existsb (status_eqb a) l && truthful_from s None r | None => false end
+  end.
+Definition truthful (n : nat) (h : list sev) : bool := truthful_from (flags0 n) None h.
+
+(* what a read returns is the current value of the flag (a sanity condition on the recorded history) *)
+Fixpoint reads_current (s : flags) (h : list sev) : bool :=
+  match h with
+  | [] => true
+  | SWrite f v :: r => reads_current (set_flag s f v) r
+  | SRead f v :: r => Bool.eqb (get_flag s f) v && reads_current s r
+  | _ :: r => reads_current s r
+  end.
+
 (* ---------- the verdict on one observed run ---------- *)
 Record sysin := { s_attempts : nat; s_qmax : nat; s_complete : bool (* launch() came back and the harness finished *) }.
 
@@ -270,21 +341,18 @@ Definition accepted (i : sysin) (tr : trace) : bool :=
 (* ---------- C17 cases: a whole run, or one row of the status decision table ---------- *)
 Inductive c17case :=
 | C17Run (i : sysin) (tr : trace)
-| C17Table (sh rs : bool) (flags : list bool) (obs : status).
-
-Definition status_eqb (a b : status) : bool :=
-  match a, b with
-  | StActive, StActive | StPausing, StPausing | StPaused, StPaused | StResuming, StResuming | StShuttingDown, StShuttingDown => true
-  | _, _ => false
-  end.
+| C17Table (sh rs : bool) (flags : list bool) (obs : status)
+| C17Status (n : nat) (h : list sev).       (* the flag writes and status requests of one whole run *)
 
 Definition c17_agree (c : c17case) : bool :=
   match c with
   | C17Run i tr => accepted i tr
   | C17Table sh rs flags obs => status_eqb (status_of sh rs flags) obs
+  | C17Status n h => reads_current (flags0 n) h
   end.
 Definition c17_prop_ok (c : c17case) : bool :=
   match c with
   | C17Run i tr => C17_ok tr
   | C17Table sh rs flags obs => status_eqb (status_of sh rs flags) obs
+  | C17Status n h => truthful n h
   end.
